@@ -26,6 +26,8 @@ TEMPLATES = {
     'open3': [(2, 3), (0, 1), (1, 2)],
     'two_components': [(0, 1), (2, 3)],
     'ring3_plus_open': [(1, 2), (3, 4), (0, 1), (2, 0)],
+    'two_rings': [(0, 1), (1, 2), (2, 0), (3, 4), (4, 5), (5, 3)],
+    'ring_then_open2': [(0, 1), (1, 2), (2, 0), (3, 4), (4, 5)],
 }
 
 
@@ -35,15 +37,17 @@ def u_section(template='ring3', with_tol=False):
     V = [[R_(f'v{i}{c}') for c in 'xyz'] for i in range(nv)]
     tol = R_('tol')
     base = bounded(*[c for v in V for c in v]) + [tol > 0, tol <= rat('1/1000')]
-    # crossing vertices are further apart than the curve tolerance (closer ones are merged by Curve3::from_points: outside this claim)
-    base += [d2(V[i], V[j]) >= rat('1/100') for i, j in itertools.combinations(range(nv), 2)]
+    if not with_tol:
+        base.append(tol == rat('1/1000000'))      # the default tolerance of section()
+    # crossing vertices are at least twice the curve tolerance apart (closer ones may be merged by Curve3::from_points: outside this claim)
+    base += [d2(V[i], V[j]) >= 4 * tol * tol for i, j in itertools.combinations(range(nv), 2)]
 
     def isect(eng, callee, args):
         pl = Struct('Polyline', [VecV([pt(list(v)) for v in V]), En('Some', [VecV([[a, b] for (a, b) in pairs])])])
         return En('Intersect', [pl], 'IntersectResult')
 
     def make(eng):
-        return [Ref.to(mesh_val(VERTS, FACES)), Ref.to(plane_val(unit3(2), rat(0))), En('Some', [tol]) if with_tol else En('None')], None
+        return [Ref.to(mesh_val(VERTS, FACES)), Ref.to(plane_val([rat('3/5'), rat('-4/5'), rat(0)], rat('1/20'))), En('Some', [tol]) if with_tol else En('None')], None
 
     def post(eng, c, ret):
         obs = [holds('section succeeds', z3.BoolVal(ret.v == 'Ok'))]
@@ -62,31 +66,41 @@ def u_section(template='ring3', with_tol=False):
             used = [z3.Or(z3.And([u[t] == V[a][t] for t in range(3)] + [w[t] == V[b][t] for t in range(3)]), z3.And([u[t] == V[b][t] for t in range(3)] + [w[t] == V[a][t] for t in range(3)])) for (u, w) in steps]
             obs.append(holds(f'crossing segment {a}-{b} is one edge of one curve, exactly once', z3.Sum([z3.If(x, 1, 0) for x in used]) == 1 if used else z3.BoolVal(False)))
         # components: rings come back closed, the number of curves is the number of components
-        comps = {'ring3': (1, [True]), 'ring4_shuffled': (1, [True]), 'open3': (1, [False]), 'two_components': (2, [False, False]), 'ring3_plus_open': (2, None)}[template]
+        comps = {'ring3': (1, [True]), 'ring4_shuffled': (1, [True]), 'open3': (1, [False]), 'two_components': (2, [False, False]), 'ring3_plus_open': (2, None), 'two_rings': (2, [True, True]), 'ring_then_open2': (2, [True, False])}[template]
         obs.append(holds('one curve per connected component of the crossing segments', z3.BoolVal(len(curves) == comps[0])))
+        closed_flags = []
         for k, cv in enumerate(curves):
             verts = [vec_of(p) for p in cv[0][0].items]
-            closed = z3.And([verts[0][t] == verts[-1][t] for t in range(3)])
-            if comps[1] is not None and k < len(comps[1]):
-                obs.append(holds(f'curve {k}: a ring of segments comes back closed, an open run open', closed == z3.BoolVal(comps[1][k])))
+            closed_flags.append(z3.And([verts[0][t] == verts[-1][t] for t in range(3)]))
+        n_rings = {'ring3': 1, 'ring4_shuffled': 1, 'open3': 0, 'two_components': 0, 'ring3_plus_open': 1, 'two_rings': 2, 'ring_then_open2': 1}[template]
+        obs.append(holds('every ring of segments comes back as a closed curve and every open run as an open one (count of closed curves)',
+                         z3.Sum([z3.If(c_, 1, 0) for c_ in closed_flags]) == n_rings if closed_flags else z3.BoolVal(n_rings == 0)))
         return obs
 
     inp = {f'v{i}{c}': V[i][k] for i in range(nv) for k, c in enumerate('xyz')}
     inp['tol'] = tol
-    return Unit(f'section[{template}{",tol" if with_tol else ""}]', 'Mesh::section', make, post, base=base, inputs=inp, observers={'intersection_with_local_plane': isect}, replay=('mesh_section', lambda mm: {'scene': {'ring3': 'box_z', 'ring4_shuffled': 'box_diagonal', 'open3': 'box_diagonal', 'two_components': 'two_boxes', 'ring3_plus_open': 'box_z'}[template]}),
-                loop_budget=64, max_paths=20000, bounds={'crossing segments': f'{len(pairs)} ({template}), listed in the order {pairs}', 'crossing vertices': f'{nv} symbolic points at least 0.1 apart', 'tol': '(0, 1e-3]'},
+    return Unit(f'section[{template}{",tol" if with_tol else ""}]', 'Mesh::section', make, post, base=base, inputs=inp, observers={'intersection_with_local_plane': isect}, replay=('mesh_section', lambda mm: {'scene': 'all'}),
+                loop_budget=64, max_paths=20000, bounds={'crossing segments': f'{len(pairs)} ({template}), listed in the order {pairs}', 'crossing vertices': f'{nv} symbolic points at least 2 tol apart', 'plane': 'normal (3/5, -4/5, 0), d = 1/20 (crosses the unit-box mesh although its min and max corners are on the same side)', 'tol': '(0, 1e-3]'},
                 assumptions=['parry TriMesh::intersection_with_local_plane by contract: vertex list + one consistently oriented index pair per crossing segment (dependency)',
                              'parry Polyline::new stores the vertex list'], timeout_ms=15000)
 
 
 def j_section(o, rep, out):
-    """the crossing vertices cannot be injected into parry, so a solver model is confirmed on real sections (a box cut across, a box cut
-    diagonally, two disjoint boxes; parry's own plane intersection does not terminate on the open meshes that were tried, so open runs are
+    """the crossing vertices cannot be injected into parry, so a solver model is confirmed on real sections (a box cut across, diagonally, by a plane with a
+    mixed-sign normal and at a corner with sub-millimetre segments, two disjoint boxes; parry's own plane intersection does not terminate on the open meshes that were tried, so open runs are
     only decided symbolically): parry's raw segments are chained exhaustively here and compared with Mesh::section"""
     import numpy as np
     if 'ok' not in out:
         return 'panic'
-    r = out['ok']
+    for r in out['ok']['scenes']:
+        w = _judge_scene(r)
+        if w:
+            return w
+    return False
+
+
+def _judge_scene(r):
+    import numpy as np
     V = np.array(r['raw_vertices'], float).reshape(-1, 3)
     pairs = r['raw_pairs']
     # merge raw vertices closer than the curve tolerance (as from_points does), then union-find over the segments
@@ -129,7 +143,7 @@ def j_section(o, rep, out):
 JUDGES = {'*': j_section}
 
 UNITS = {
-    'quick': [('u_section', {'template': t, 'with_tol': w}) for (t, w) in (('ring3', False), ('ring4_shuffled', True), ('open3', False), ('two_components', True), ('ring3_plus_open', False))],
+    'quick': [('u_section', {'template': t, 'with_tol': w}) for (t, w) in (('ring3', False), ('ring4_shuffled', True), ('open3', False), ('two_components', True), ('ring3_plus_open', False), ('two_rings', False), ('ring_then_open2', True))],
     'thorough': [('u_section', {'template': t, 'with_tol': w}) for t in TEMPLATES for w in (False, True)],
 }
 
